@@ -501,6 +501,74 @@ def fresh_set_case(ctx, prop, k, tmp, fmt):
     del writer
 
 
+def several_packages_roundtrip(ctx, k, tmp):
+    """a model over two or three packages (an extension package, two versions of a metamodel) that may share one namespace
+    prefix and class names: objects of subclasses sit in containments typed by a class of the first package (so their
+    type is written explicitly): every object comes back with its own class"""
+    import os
+    from pyecore import ecore as E
+    from pyecore.resources import ResourceSet, URI
+    from pyecore.resources.xmi import XMIOptions
+    rng = common.sub_rng(ctx.seed, 'C08', 'packages', k)
+    npk = rng.choice([2, 2, 3])
+    same_prefix = rng.random() < .7
+    same_names = rng.random() < .6
+    pks, classes = [], []
+    for i in range(npk):
+        pk = E.EPackage(f'lib{i}', f'http://verif/c08/lib{i}/{k}', 'lib' if same_prefix else f'l{i}')
+        c = E.EClass('Item' if same_names else f'Item{i}')
+        c.eStructuralFeatures.append(E.EAttribute('name', E.EString))
+        pk.eClassifiers.append(c)
+        pks.append(pk); classes.append(c)
+    base = classes[0]
+    base.eStructuralFeatures.append(E.EReference('kids', base, upper=-1, containment=True))
+    base.eStructuralFeatures.append(E.EReference('friend', base))
+    for c in classes[1:]:
+        c.eSuperTypes.append(base)
+    root = base(name='root')
+    objs = [root]
+    for j in range(rng.randint(2, 6)):
+        o = rng.choice(classes)(name=f'n{j}')
+        rng.choice(objs).kids.append(o)
+        objs.append(o)
+    for o in objs:
+        if rng.random() < .5:
+            o.friend = rng.choice(objs)
+
+    def rs():
+        r = ResourceSet()
+        for pk in pks:
+            r.metamodel_registry[pk.nsURI] = pk
+        return r
+    path = os.path.join(tmp, f'pkrt{k}.xmi')
+    res = rs().create_resource(URI(path))
+    res.use_uuid = rng.random() < .3
+    res.append(root)
+    opts = rng.choice([None, {XMIOptions.OPTION_USE_XMI_TYPE: True}, {XMIOptions.SERIALIZE_DEFAULT_VALUES: True}])
+    ctx.evaluations += 1
+    ctx.count('packages/' + ('shared-prefix' if same_prefix else 'own-prefixes') + ('/same-names' if same_names else ''))
+    ctx.nontriv(('packages', k))
+
+    def walk(o):
+        out = [(o.name, classes.index(o.eClass) if o.eClass in classes else f'foreign {o.eClass.name}',
+                o.friend.name if o.friend is not None else None)]
+        for c in o.kids:
+            out += walk(c)
+        return out
+    before = walk(root)
+    try:
+        res.save(options=opts)
+        back = rs().get_resource(URI(path)).contents[0]
+        after = walk(back)
+    except Exception as e:
+        after = f'raised {type(e).__name__}: {str(e)[:80]}'
+    if after != before:
+        ctx.violate({'clause': 'not-isomorphic', 'packages': True},
+                    f'model over {npk} packages ({"one shared prefix" if same_prefix else "own prefixes"}, {"same class names" if same_names else "own class names"}) '
+                    f'[options {opts}]: (name, class, friend) in document order was {before}, reloaded {after}',
+                    {'packages_case': k})
+
+
 def run(ctx):
     common.use_repo()
     n = 300 if ctx.quick() else 6000
@@ -519,6 +587,8 @@ def run(ctx):
         empty_case(ctx, tmp, 'xmi')
         for k in range(20 if ctx.quick() else 300):
             fresh_set_case(ctx, 'C08', k, tmp, 'xmi')
+        for k in range(30 if ctx.quick() else 500):
+            several_packages_roundtrip(ctx, k, tmp)
         for h in range(80 if ctx.quick() else 1500):
             resave_case(ctx, 'C08', h, tmp, 'xmi')
     finally:
